@@ -118,10 +118,52 @@ func c17Spec(f []string) string {
 			}
 			return "ok " + v
 		}
+	case f[0] == "reduce" && len(f) == 4:
+		id, err := strconv.Atoi(f[2])
+		if err != nil || id < 0 || id >= len(c17Reducers) {
+			return "bad-args"
+		}
+		t := "{@reduce {0} " + c17Reducers[id]
+		switch f[3] {
+		case "-":
+		case "e":
+			t += " \"\""
+		default:
+			t += " " + quote(f[3])
+		}
+		v, bad = c17Eval(t+"}", []string{string(UnHex(f[1]))})
+		if bad == "" {
+			return "ok " + HexS(v)
+		}
 	default:
 		return "bad-op"
 	}
 	return bad
+}
+
+// reducers of `spec reduce` (Lean: Drv/C17.lean redFn, same order)
+var c17Reducers = []string{"\"{0}-{1}\"", "{1}", "{0}", "{if {eq {0} x} {1}}", "{if {1} {0}}", "\"{1}{0}\"", "\"\"",
+	"{coalesce {0} {1}}", "{if {neq {0} {1}} \"{0}{1}\"}", "{unless {0} {1}}"}
+
+// lists for @reduce: empty elements in every position (first, several in a row, all), blanks (not truthy), "x"
+func c17ReduceList(r *Rand) []string {
+	n := r.Range(1, 6)
+	out := make([]string, n)
+	for i := range out {
+		out[i] = Pick(r, []string{"", "", "", "x", "x", "a", "b", " ", "ab", "é", "-"})
+	}
+	switch r.Intn(6) {
+	case 0:
+		out[0] = ""
+	case 1:
+		out[0] = ""
+		if n > 1 {
+			out[1] = ""
+		}
+	case 2:
+		out[0] = "x"
+	}
+	return out
 }
 
 // words and delimiters that can be written between double quotes in a template unchanged
@@ -207,6 +249,18 @@ func c17SpecGen(r *Rand, tier string) []string {
 			}
 			v := Pick(r, append(words, "", "zz"))
 			out = append(out, fmt.Sprintf("spec in %s %s", HexS(v), HexS(strings.Join(words, "\x00"))))
+		}
+		// @reduce: the initial-value rule on lists with empty elements and reducers that return ""
+		if i%3 == 0 {
+			init := Pick(r, []string{"-", "-", "-", "e", HexS("x"), HexS("a"), HexS(" "), HexS("-")})
+			out = append(out, fmt.Sprintf("spec reduce %s %d %s", HexS(strings.Join(c17ReduceList(r), "\x00")), r.Intn(len(c17Reducers)), init))
+			// the same family through the model (and nested: the reduced value feeds another helper)
+			red := Pick(r, c17Reducers)
+			t := "{@reduce {0} " + red + Pick(r, []string{"", "", " \"\"", " x", " {k}", " \" \""}) + "}"
+			if r.Chance(1, 4) {
+				t = "{@reduce {@map {0} {if {eq {0} a} \"\" {0}}} " + red + "}"
+			}
+			out = append(out, ExprCase(r.Bool(), t, []string{strings.Join(c17ReduceList(r), "\x00"), "x"}, []string{"k", Pick(r, []string{"", "x", "q"})}))
 		}
 		// any generated template, read as a list
 		if i%2 == 0 {
